@@ -6,7 +6,10 @@ package main
 //
 // cfg: [max]
 // ops: [0 tok amount] Arrive -> obs [status, concurrency of the source seen inside the handler (0 when rejected)]
-//      [1 tok amount panic] Finish of one in-flight request of (tok, amount) -> obs []
+//      [1 tok amount mode] Finish of one in-flight request of (tok, amount) -> obs []; mode 0 return, 1 panic,
+//          2/3 the same after the handler rewrote the request fields the extractor reads (as a proxy stripping
+//          credentials does): the slot must still go back to the source it was taken from
+//      [4] Wrap: the protected handler is exchanged (for an equivalent one) while requests may be in flight -> obs []
 //      [2] request whose source cannot be extracted -> obs [status]
 // Monitors: C04 (bound, reject-iff-full, slot returned on return and on panic), C14 (connection half:
 // decisions of a source equal those of its solo run).
@@ -32,8 +35,8 @@ type connlimitComp struct{}
 
 type clReq struct {
 	tok, amount int64
-	release     chan bool // true = panic
-	done        chan int  // status written by ServeHTTP (or -1 when it panicked)
+	release     chan int // 0 return, 1 panic, 2 rewrite the request then return, 3 rewrite then panic
+	done        chan int // status written by ServeHTTP (or -1 when it panicked)
 }
 
 type clRunner struct {
@@ -41,29 +44,41 @@ type clRunner struct {
 	seen    map[int64]int64 // per-source amount currently inside the handler, counted by the handler itself
 	entered chan int64
 	cl      *connlimit.ConnLimiter
+	handler func() http.Handler
 }
 
 func newCLRunner(max int64) (*clRunner, error) {
 	r := &clRunner{seen: map[int64]int64{}, entered: make(chan int64, 1)}
-	handler := http.HandlerFunc(func(w http.ResponseWriter, req *http.Request) {
-		tok, _ := strconv.ParseInt(req.Header.Get("X-Source"), 10, 64)
-		amount, _ := strconv.ParseInt(req.Header.Get("X-Amount"), 10, 64)
-		r.mu.Lock()
-		r.seen[tok] += amount
-		cur := r.seen[tok]
-		r.mu.Unlock()
-		defer func() {
+	r.handler = func() http.Handler {
+		return http.HandlerFunc(func(w http.ResponseWriter, req *http.Request) {
+			tok, _ := strconv.ParseInt(req.Header.Get("X-Source"), 10, 64)
+			amount, _ := strconv.ParseInt(req.Header.Get("X-Amount"), 10, 64)
 			r.mu.Lock()
-			r.seen[tok] -= amount
+			r.seen[tok] += amount
+			cur := r.seen[tok]
 			r.mu.Unlock()
-		}()
-		rel := req.Context().Value(relKey{}).(chan bool)
-		r.entered <- cur
-		if <-rel {
-			panic("handler panics on request")
-		}
-		w.WriteHeader(200)
-	})
+			defer func() {
+				r.mu.Lock()
+				r.seen[tok] -= amount
+				r.mu.Unlock()
+			}()
+			rel := req.Context().Value(relKey{}).(chan int)
+			r.entered <- cur
+			mode := <-rel
+			if mode >= 2 {
+				if tok%2 == 0 {
+					req.Header.Del("X-Source")
+				} else {
+					req.Header.Set("X-Source", strconv.FormatInt(tok+1, 10))
+				}
+				req.Header.Set("X-Amount", "7")
+			}
+			if mode%2 == 1 {
+				panic("handler panics on request")
+			}
+			w.WriteHeader(200)
+		})
+	}
 	extract := utils.ExtractorFunc(func(req *http.Request) (string, int64, error) {
 		s := req.Header.Get("X-Source")
 		if s == "" {
@@ -72,7 +87,7 @@ func newCLRunner(max int64) (*clRunner, error) {
 		amount, _ := strconv.ParseInt(req.Header.Get("X-Amount"), 10, 64)
 		return s, amount, nil
 	})
-	cl, err := connlimit.New(handler, extract, max)
+	cl, err := connlimit.New(r.handler(), extract, max)
 	if err != nil {
 		return nil, err
 	}
@@ -84,7 +99,7 @@ type relKey struct{}
 
 // arrive starts a request and waits until it is either inside the handler or answered.
 func (r *clRunner) arrive(tok, amount int64) (status int64, seen int64, rq *clReq) {
-	rq = &clReq{tok: tok, amount: amount, release: make(chan bool, 1), done: make(chan int, 1)}
+	rq = &clReq{tok: tok, amount: amount, release: make(chan int, 1), done: make(chan int, 1)}
 	req := httptest.NewRequest(http.MethodGet, "http://example.com/", nil)
 	if tok >= 0 {
 		req.Header.Set("X-Source", strconv.FormatInt(tok, 10))
@@ -122,7 +137,7 @@ func (r *clRunner) burst(tok int64, k int) (admitted int64, maxSeen int64, probl
 	done := make(chan res, k)
 	var rqs []*clReq
 	for i := 0; i < k; i++ {
-		rq := &clReq{tok: tok, amount: 1, release: make(chan bool, 1), done: make(chan int, 1)}
+		rq := &clReq{tok: tok, amount: 1, release: make(chan int, 1), done: make(chan int, 1)}
 		rqs = append(rqs, rq)
 		req := httptest.NewRequest(http.MethodGet, "http://example.com/", nil)
 		req.Header.Set("X-Source", strconv.FormatInt(tok, 10))
@@ -162,7 +177,7 @@ func (r *clRunner) burst(tok int64, k int) (admitted int64, maxSeen int64, probl
 		}
 	}
 	for _, rq := range rqs {
-		rq.release <- false
+		rq.release <- 0
 	}
 	for i := int64(0); i < admitted; i++ {
 		select {
@@ -174,8 +189,8 @@ func (r *clRunner) burst(tok int64, k int) (admitted int64, maxSeen int64, probl
 	return admitted, maxSeen, problem
 }
 
-func (r *clRunner) finish(rq *clReq, panics bool) int {
-	rq.release <- panics
+func (r *clRunner) finish(rq *clReq, mode int) int {
+	rq.release <- mode
 	select {
 	case code := <-rq.done:
 		return code
@@ -205,6 +220,8 @@ func (c *connlimitComp) Gen(rng *rand.Rand, idx int, tier string, targeted bool)
 		switch {
 		case r < 3:
 			h.Ops = append(h.Ops, []int64{2})
+		case r >= 97:
+			h.Ops = append(h.Ops, []int64{4})
 		case r < 9 || (targeted && r < 30):
 			h.Ops = append(h.Ops, []int64{3, int64(rng.Intn(nsrc)), int64(2 + rng.Intn(14))})
 		case r < 60 || len(inflight) == 0:
@@ -223,13 +240,13 @@ func (c *connlimitComp) Gen(rng *rand.Rand, idx int, tier string, targeted bool)
 			f := inflight[k]
 			inflight = append(inflight[:k], inflight[k+1:]...)
 			cur[f.tok] -= f.amount
-			h.Ops = append(h.Ops, []int64{1, f.tok, f.amount, hlib.B2i(rng.Intn(3) == 0)})
+			h.Ops = append(h.Ops, []int64{1, f.tok, f.amount, finishMode(rng)})
 		}
 	}
 	// drain, then probe the full capacity of every source again
 	if rng.Intn(2) == 0 {
 		for _, f := range inflight {
-			h.Ops = append(h.Ops, []int64{1, f.tok, f.amount, hlib.B2i(rng.Intn(3) == 0)})
+			h.Ops = append(h.Ops, []int64{1, f.tok, f.amount, finishMode(rng)})
 		}
 		for s := 0; s < nsrc; s++ {
 			for k := int64(0); k < max+1 && k < 7; k++ {
@@ -238,6 +255,17 @@ func (c *connlimitComp) Gen(rng *rand.Rand, idx int, tier string, targeted bool)
 		}
 	}
 	return h
+}
+
+func finishMode(rng *rand.Rand) int64 {
+	m := int64(0)
+	if rng.Intn(3) == 0 {
+		m = 1
+	}
+	if rng.Intn(4) == 0 {
+		m += 2
+	}
+	return m
 }
 
 func (c *connlimitComp) Run(h *hlib.History) ([]hlib.Mon, bool) {
@@ -290,7 +318,11 @@ func (c *connlimitComp) Run(h *hlib.History) ([]hlib.Mon, bool) {
 				}
 			}
 		case len(op) == 4 && op[0] == 1:
-			tok, amount, panics := op[1], op[2], op[3] != 0
+			tok, amount, mode := op[1], op[2], op[3]
+			if mode < 0 || mode > 3 {
+				return nil, false
+			}
+			panics := mode%2 == 1
 			k := -1
 			for i, rq := range inflight {
 				if rq.tok == tok && rq.amount == amount {
@@ -301,13 +333,13 @@ func (c *connlimitComp) Run(h *hlib.History) ([]hlib.Mon, bool) {
 			if k < 0 {
 				// ill-formed (only shrunk candidates): release what is in flight and reject the history
 				for _, rq := range inflight {
-					r.finish(rq, false)
+					r.finish(rq, 0)
 				}
 				return nil, false
 			}
 			rq := inflight[k]
 			inflight = append(inflight[:k], inflight[k+1:]...)
-			code := r.finish(rq, panics)
+			code := r.finish(rq, int(mode))
 			cur[tok] -= amount
 			nreq[tok]--
 			if panics != (code == -1) || code == -2 {
@@ -341,22 +373,25 @@ func (c *connlimitComp) Run(h *hlib.History) ([]hlib.Mon, bool) {
 			if admitted < want {
 				mons = append(mons, hlib.Mon{Prop: "C04", Step: step, Msg: fmt.Sprintf("%d requests of source %d arriving together with %d of %d in flight: only %d admitted although %d slots were free", k, tok, cur[tok], max, admitted, free)})
 			}
+		case len(op) == 1 && op[0] == 4:
+			r.cl.Wrap(r.handler())
+			h.Obs = append(h.Obs, []int64{})
 		case len(op) == 1 && op[0] == 2:
 			status, _, rq := r.arrive(-1, 1)
 			if rq != nil {
-				r.finish(rq, false)
+				r.finish(rq, 0)
 				mons = append(mons, hlib.Mon{Prop: "C04", Step: step, Msg: "request without a source reached the handler"})
 			}
 			h.Obs = append(h.Obs, []int64{status})
 		default:
 			for _, rq := range inflight {
-				r.finish(rq, false)
+				r.finish(rq, 0)
 			}
 			return nil, false
 		}
 	}
 	for _, rq := range inflight {
-		r.finish(rq, false)
+		r.finish(rq, 0)
 	}
 	// C14 (connection limiter): each source's decisions equal those of its solo run on a fresh limiter
 	for tok := range decisions {
@@ -384,7 +419,7 @@ func (c *connlimitComp) solo(h *hlib.History, tok int64) ([]int64, bool) {
 	var inflight []*clReq
 	var out []int64
 	for _, op := range h.Ops {
-		if len(op) < 3 || op[1] != tok || op[0] == 3 {
+		if len(op) < 3 || op[1] != tok || op[0] == 3 || op[0] == 4 {
 			continue
 		}
 		if op[0] == 0 {
@@ -397,14 +432,14 @@ func (c *connlimitComp) solo(h *hlib.History, tok int64) ([]int64, bool) {
 			for i, rq := range inflight {
 				if rq.amount == op[2] {
 					inflight = append(inflight[:i], inflight[i+1:]...)
-					r.finish(rq, op[3] != 0)
+					r.finish(rq, int(op[3]))
 					break
 				}
 			}
 		}
 	}
 	for _, rq := range inflight {
-		r.finish(rq, false)
+		r.finish(rq, 0)
 	}
 	return out, true
 }
@@ -417,7 +452,9 @@ func (c *connlimitComp) Describe(h *hlib.History) interface{} {
 		case 0:
 			s = fmt.Sprintf("Arrive(src=%d,amount=%d)", op[1], op[2])
 		case 1:
-			s = fmt.Sprintf("Finish(src=%d,amount=%d,panic=%v)", op[1], op[2], op[3] != 0)
+			s = fmt.Sprintf("Finish(src=%d,amount=%d,panic=%v,handler rewrote the request=%v)", op[1], op[2], op[3]%2 == 1, op[3] >= 2)
+		case 4:
+			s = "Wrap(equivalent handler)"
 		case 3:
 			s = fmt.Sprintf("Burst(src=%d,k=%d)", op[1], op[2])
 		default:
@@ -441,8 +478,14 @@ func (c *connlimitComp) Nontrivial(h *hlib.History) string {
 				adm++
 			}
 		}
-		if op[0] == 1 && op[3] != 0 {
+		if op[0] == 1 && op[3]%2 == 1 {
 			pan++
+		}
+		if op[0] == 1 && op[3] >= 2 {
+			hlib.Count("finish_after_request_rewrite", 1)
+		}
+		if op[0] == 4 {
+			hlib.Count("wrap_calls", 1)
 		}
 	}
 	hlib.Count("arrivals_admitted", int64(adm))
@@ -457,6 +500,6 @@ func (c *connlimitComp) Nontrivial(h *hlib.History) string {
 	return ""
 }
 
-func contextWith(req *http.Request, rel chan bool) context.Context {
+func contextWith(req *http.Request, rel chan int) context.Context {
 	return context.WithValue(req.Context(), relKey{}, rel)
 }
